@@ -23,12 +23,28 @@ ASSUMPTIONS = [
     "moving right by hori_advance, glyph drawn at pen + offset; compared are glyph origins and total advance",
     "one feature per program (GPOS applies features in a fixed script-specific order the property does not fix); "
     "yAdvance = 0, device/variation offsets null, no placement adjustment of cursively attached glyphs "
-    "(documented as unsupported in gpos.rs), mark coverages list GDEF marks only, MarkMark lookups filter exactly "
-    "their Mark2Coverage, cursive lookups ignore marks, no context lookup nested in a context lookup",
+    "(documented as unsupported in gpos.rs), MarkMark lookups filter exactly their Mark2Coverage, cursive lookups "
+    "ignore marks, no context lookup nested in a context lookup; GDEF may be absent, lack a GlyphClassDef or leave "
+    "mark-coverage glyphs unclassified / classed as bases (what then counts as a mark when the preceding base is "
+    "searched is a named choice, Dev_MarkAttachedIsMark / Dev_MarkMarkClassTest)",
+    "kern coverage bits are modelled completely; a cross-stream or vertical subtable never changes the horizontal "
+    "advance; whether cross-stream values shift the right glyph across the line or are ignored is a named choice "
+    "(Dev_KernCrossStream)",
     "Distance(0,0) and None are one abstract placement",
 ]
 
 MARK = 3
+
+# families of behaviour every run must exercise (tags computed by MC_Gpos!VacTags, counted by the replay)
+VAC_TAGS = tuple("vac:" + t for t in (
+    "gdef-absent", "gdef-noclassdef", "attached-mark-not-gdef-mark", "attached-mark-gdef-base",
+    "reading-attached-is-mark-matters", "reading-markmark-class-test-matters",
+    "kern-cross-stream-pair-hit", "kern-vertical-pair-hit", "kern-cross-and-with-stream-hit",
+    "reading-kern-cross-shift-matters"))
+# ... and families the random programs of record mode must reach (counted by the harness)
+REC_FAMILIES = ("programs_gpos_without_gdef", "programs_gdef_without_glyphclassdef",
+                "programs_mark_coverage_not_gdef_mark", "events_attached_mark_not_gdef_mark",
+                "programs_kern_cross_stream", "programs_kern_vertical")
 
 
 # ------------------------------------------------------------------------------------------------
@@ -105,7 +121,8 @@ def _all_lookups(prog):
 
 def _info_causes(prog, inp):
     causes = set()
-    cls = prog["gdef"]["cls"]
+    # effective GDEF classes: none without a GlyphClassDef
+    cls = prog["gdef"]["cls"] if prog["gdef"].get("tab", "full") == "full" else [0] * len(prog["gdef"]["cls"])
     if prog.get("gpos"):
         if any(l["flag"] & 0x10 for l in _all_lookups(prog)) and any(cls[x["g"]] != MARK for x in inp):
             causes.add("lookupflag-UseMarkFilteringSet-skips-non-marks")
@@ -169,7 +186,7 @@ def run(ctx):
                     samples.append(payload)
                 if not planted and '"t":"M"' in payload:
                     planted.append(payload)
-        mc = vlib.run_tlc(ctx, "MC_Gpos", cfg, "mc", workers=8, timeout=600 if ctx.quick else 3000, sink=sink)
+        mc = vlib.run_tlc(ctx, "MC_Gpos", cfg, "mc", workers=4, timeout=600 if ctx.quick else 3000, sink=sink)
     ctx.note("MC_Gpos: %d states generated, %d distinct, %d templates, %d cases (%.1fs)" %
              (mc.generated, mc.distinct, n_tpl[0], n_cases[0], mc.wall))
     if n_cases[0] == 0 or n_tpl[0] == 0:
@@ -282,6 +299,7 @@ def run(ctx):
         "table_bytes_encoded": rep.get("table_bytes_encoded", 0),
         "recorded_events_judged": total,
         "recorded_program_kinds": rec.get("kinds", {}),
+        "recorded_families": rec.get("families", {}),
         "vacuity": stats,
         "tlc_states_generated": mc.generated,
         "binding_selfcheck": "corrupted generated expectation reported by replay; corrupted infos and positions events rejected by Trace_Gpos",
@@ -290,9 +308,12 @@ def run(ctx):
                        "template's length); recorded traces are random samples" % cfg,
     }
     for k in ("exp_placement_mark", "exp_placement_cursive", "exp_placement_distance", "exp_kerning_nonzero",
-              "cases_with_several_conformant_outcomes"):
+              "cases_with_several_conformant_outcomes", "templates_gpos_without_gdef_table") + VAC_TAGS:
         if stats.get(k, 0) == 0:
             raise vlib.ToolError("vacuity: no generated case exercised %s" % k)
+    for k in REC_FAMILIES:
+        if rec.get("families", {}).get(k, 0) == 0:
+            raise vlib.ToolError("vacuity: no recorded random program/event in family %s" % k)
     vlib.finish(ctx, LEVEL, coverage, violations, ASSUMPTIONS)
 
 
